@@ -1066,3 +1066,60 @@ Proof.
   intros H. destruct (accepts_sound _ _ _ H) as (Hnd & ls & s & Hr & <-).
   eapply model_traces_satisfy_spec; eauto.
 Qed.
+
+(* ---------------------------------------------------------------------------------- *)
+
+(* No request is ever stuck: whatever the state of a hand-over, a request to a served address that
+   has not been answered yet can be carried through right now (connect, accept, answer, receive)
+   and the client gets the complete response of the site it asked for from an instance that
+   serves the address. *)
+Lemma can_complete s k c :
+  reachable s -> nth_error (conns s) k = Some c -> In (caddr c) (addrs_of s (owner s)) ->
+  finished (cst c) = false -> lost (cst c) = false ->
+  exists ls s' i,
+    run s ls = Some s' /\
+    hist s' = EEnd k (Some (i, csite c, true)) :: hist s /\
+    (exists c', nth_error (conns s') k = Some c' /\ cst c' = CDone i) /\
+    In (caddr c) (addrs_of s i) /\ rst s' = rst s /\ cur s' = cur s.
+Proof.
+  intros Hr Hk Ha Hfin Hlost.
+  destruct (owner_serves s _ Hr Ha) as (Hfd & Hacc).
+  assert (Hfd' : isnil (fdh s (caddr c)) = false).
+  { apply isnil_false. intros En. rewrite En in Hfd. contradiction. }
+  apply mem_In in Hacc.
+  assert (Hlen : k < length (conns s)) by (apply nth_error_Some; congruence).
+  (* the tail of the journey, from each stage *)
+  assert (Hans : forall s1 c1 i, nth_error (conns s1) k = Some c1 -> cst c1 = CAnswered i -> csite c1 = csite c ->
+            exists s', run s1 [LRecv k] = Some s' /\ hist s' = EEnd k (Some (i, csite c, true)) :: hist s1 /\
+                       (exists c', nth_error (conns s') k = Some c' /\ cst c' = CDone i) /\ rst s' = rst s1 /\ cur s' = cur s1).
+  { intros s1 c1 i H1 H2 H3. simpl. rewrite H1, H2. eexists. split; [reflexivity|]. simpl. rewrite H3.
+    split; [reflexivity|]. split; [|auto]. rewrite nth_error_set_nth, Nat.eqb_refl, H1. eexists. split; reflexivity. }
+  assert (Hacd : forall s1 c1 i, nth_error (conns s1) k = Some c1 -> cst c1 = CAccepted i -> csite c1 = csite c ->
+            exists s', run s1 [LAnswer k; LRecv k] = Some s' /\ hist s' = EEnd k (Some (i, csite c, true)) :: hist s1 /\
+                       (exists c', nth_error (conns s') k = Some c' /\ cst c' = CDone i) /\ rst s' = rst s1 /\ cur s' = cur s1).
+  { intros s1 c1 i H1 H2 H3. simpl. rewrite H1, H2. simpl.
+    rewrite nth_error_set_nth, Nat.eqb_refl, H1. simpl. eexists. split; [reflexivity|]. simpl. rewrite H3.
+    split; [reflexivity|]. split; [|auto]. rewrite !nth_error_set_nth, Nat.eqb_refl, H1. eexists. split; reflexivity. }
+  destruct (cst c) eqn:Ec; try discriminate.
+  - (* CInit *)
+    exists [LConnect k; LAccept k (owner s); LAnswer k; LRecv k]. simpl. rewrite Hk, Ec, Hfd'. simpl.
+    rewrite nth_error_set_nth, Nat.eqb_refl, Hk. simpl. rewrite Hacc. simpl.
+    rewrite !nth_error_set_nth, Nat.eqb_refl, Hk. simpl.
+    rewrite !nth_error_set_nth, Nat.eqb_refl, Hk. simpl.
+    eexists. exists (owner s). split; [reflexivity|]. simpl. split; [reflexivity|].
+    split; [|auto]. rewrite !nth_error_set_nth, Nat.eqb_refl, Hk. eexists. split; reflexivity.
+  - (* CQueued *)
+    exists [LAccept k (owner s); LAnswer k; LRecv k]. simpl. rewrite Hk, Ec, Hacc. simpl.
+    rewrite !nth_error_set_nth, Nat.eqb_refl, Hk. simpl.
+    rewrite !nth_error_set_nth, Nat.eqb_refl, Hk. simpl.
+    eexists. exists (owner s). split; [reflexivity|]. simpl. split; [reflexivity|].
+    split; [|auto]. rewrite !nth_error_set_nth, Nat.eqb_refl, Hk. eexists. split; reflexivity.
+  - (* CAccepted *)
+    destruct (Hacd s c i Hk Ec eq_refl) as (s' & X1 & X2 & X3 & X4 & X5).
+    exists [LAnswer k; LRecv k], s', i. repeat split; try assumption.
+    apply (accepted_by_current_or_later s k c i Hr Hk). rewrite Ec. reflexivity.
+  - (* CAnswered *)
+    destruct (Hans s c i Hk Ec eq_refl) as (s' & X1 & X2 & X3 & X4 & X5).
+    exists [LRecv k], s', i. repeat split; try assumption.
+    apply (accepted_by_current_or_later s k c i Hr Hk). rewrite Ec. reflexivity.
+Qed.
